@@ -150,3 +150,52 @@ def run(chk, prog):
                'both loaders apply the same version bounds %s' % sorted(a_),
                'the two loaders do not apply the same upper and lower version bounds: serde %s, streaming %s'
                % (sorted(a_), sorted(b_)), prog.fn('json_read_stream::parse').loc(0))
+    one_string_decoder(chk, prog)
+
+
+def _quote_consts(fn):
+    """MIR constants denoting the JSON quote character in fn: char '"' or a u8 34."""
+    hits = []
+
+    def visit(o, where):
+        if isinstance(o, dict):
+            if o.get('k') == 'const' and (o.get('char') == '"' or (o.get('ty') == 'u8' and o.get('int') == 34)):
+                hits.append(where)
+            for v in o.values():
+                visit(v, where)
+        elif isinstance(o, list):
+            for v in o:
+                visit(v, where)
+    for bb, b in enumerate(fn.blocks):
+        visit(b.get('st'), bb)
+        visit(b.get('term'), bb)
+    return hits
+
+
+def one_string_decoder(chk, prog):
+    RS = 'C14.one-string-decoder'
+    chk.rule(RS, 'In the streaming tokenizer the quote character is recognised in read_string only (and where a value is '
+             'dispatched on its first character): object keys, string values and every other quoted text go through the '
+             'one routine that applies the escape table. A second routine that finds the closing quote itself returns the '
+             'text without unescaping it, while serde_json unescapes keys and values alike.')
+    ALLOWED = {'JsonTokenizer::read_string': 'the decoder', 'JsonTokenizer::read_value': 'dispatch on the first character',
+               'JsonTokenizer::peek': 'look-ahead only'}
+    n = 0
+    for fn in sorted(prog.fns.values(), key=lambda f: f.p):
+        if fn.crate != 'bladeink' or '::json::json_tokenizer::' not in fn.p and '::json::json_read_stream::' not in fn.p:
+            continue
+        hits = _quote_consts(fn)
+        if not hits:
+            continue
+        root = prog.root_fn(fn).short
+        n += 1
+        chk.decide(RS, chk.key(RS, root), root in ALLOWED, ALLOWED.get(root, ''),
+                   '%s recognises the quote character itself: quoted text it returns bypasses read_string and its escape '
+                   'table (an escaped key such as "f\\u00e2ch\\u00e9e" is taken literally by the streaming loader and '
+                   'decoded by serde_json)' % root, fn.loc(hits[0]))
+    chk.floor(RS, 'functions recognising the quote character', n, 1)
+    rk = prog.fn('JsonTokenizer::read_obj_key')
+    if chk.anchor(RS, 'JsonTokenizer::read_obj_key', rk):
+        chk.decide(RS, chk.key(RS, 'read_obj_key', 'uses-decoder'),
+                   any(callee_short(t) == 'JsonTokenizer::read_string' for _, t in rk.calls()),
+                   'keys are read by read_string', 'read_obj_key does not call read_string', rk.loc(0))
